@@ -66,6 +66,8 @@ BASE = {
     "empty": lambda: set(),
     "subset": lambda a, b: set(a) <= set(b),
     "prodset": _prodset,
+    "colsum": lambda rows, field, t: sum(r[field] for r in list(rows)[: max(t, 0)]),
+    "colcount": lambda rows, field, k, t: sum(1 for r in list(rows)[: max(t, 0)] if r[field] == k),
     "get": lambda d, k, default: d.get(k, default),
     "same_ref": lambda a, b: a is b,
     "unopt": lambda x: x,
